@@ -208,7 +208,11 @@ func ruleFormulas(w *World, r *Report, pfx string) {
 				}
 				// the text producer: a function value loaded from the decorator's `producer` field
 				pv := p.stripR(p.val(ev, c.Call.Value))
-				if f, ok := loadedField(pv.V); !ok || f.Name != "producer" {
+				// (a field of the decorator holding a func(x) string - whatever it is called)
+				if f, ok := loadedField(pv.V); !ok || f.Owner != typeName(fn.Signature.Recv().Type()) {
+					continue
+				}
+				if sig, ok := pv.V.Type().Underlying().(*types.Signature); !ok || sig.Params().Len() != 1 || sig.Results().Len() != 1 || !types.Identical(sig.Results().At(0).Type(), types.Typ[types.String]) {
 					continue
 				}
 				nProd++
